@@ -158,14 +158,14 @@ def cmdOf (env : Env) (kbs : List KeyBlobDef) : Stmt → Option Cmd
     let i ← intOf env id
     let a ← intOf env addr
     let (st, en, key, ctr) ← keyblobOf kbs i
-    some (.loadCrypto "keywrap" a st en key ctr blob)
+    if isAddr a then some (.loadCrypto "keywrap" a st en key ctr blob) else none
   | .encrypt id opt d (.addr a) => do
     let i ← intOf env id
     let _ ← memIdOf env opt
     let a ← intOf env a
     let bs ← fileOf env d
     let (st, en, key, ctr) ← keyblobOf kbs i
-    some (.loadCrypto "encrypt" a st en key ctr (hexOfBytes bs))
+    if isAddr a then some (.loadCrypto "encrypt" a st en key ctr (hexOfBytes bs)) else none
   | _ => none
 
 /-- any load of a binary blob -/
